@@ -35,6 +35,7 @@ NEWTON_ATOL = 5e-8  # the *other* flight point after editing one: one more warm 
 AS_VARIANTS = [
     {"zoo": "Z8"},
     {"zoo": "Z8", "wave": True, "relief": True},
+    {"zoo": "Z8", "pm": True},
     {"zoo": "Z9"},
     {"zoo": "Z10"},
     {"zoo": "Z11", "compressible": True},
